@@ -1739,14 +1739,26 @@ fn check_field_offsets(file: &File, scope: &Scope, schema: &Schema) -> Result<()
 ///      - struct size is not an integral number of octets
 ///      - packet size is not an integral number of octets
 ///      - scalar array element size is not an integral number of octets
-fn check_decl_sizes(file: &File, schema: &Schema) -> Result<(), Diagnostics> {
+fn check_decl_sizes(file: &File, scope: &Scope, schema: &Schema) -> Result<(), Diagnostics> {
     let mut diagnostics: Diagnostics = Default::default();
     for decl in &file.declarations {
         let mut static_size = 0;
 
         for field in decl.fields() {
-            match &field.desc {
-                FieldDesc::Array { width: Some(width), .. } if width % 8 != 0 => diagnostics.push(
+            // The array elements are either scalar or enum values of the
+            // selected width, or struct values which are validated on their own.
+            let element_width = match &field.desc {
+                FieldDesc::Array { width: Some(width), .. } => Some(*width),
+                FieldDesc::Array { type_id: Some(type_id), .. } => {
+                    match scope.typedef.get(type_id) {
+                        Some(Decl { desc: DeclDesc::Enum { width, .. }, .. }) => Some(*width),
+                        _ => None,
+                    }
+                }
+                _ => None,
+            };
+            match element_width {
+                Some(width) if width % 8 != 0 => diagnostics.push(
                     Diagnostic::error()
                         .with_code(ErrorCode::InvalidFieldSize)
                         .with_message(
@@ -1926,7 +1938,7 @@ pub fn analyze(file: &File) -> Result<File, Diagnostics> {
     check_decl_constraints(&file, &scope)?;
     let schema = Schema::new(&file);
     check_field_offsets(&file, &scope, &schema)?;
-    check_decl_sizes(&file, &schema)?;
+    check_decl_sizes(&file, &scope, &schema)?;
     Ok(file)
 }
 
